@@ -278,28 +278,50 @@ class Body:
             out |= self.reach(s, removed, stop)
         return out
 
-    def dominators(self):
+    def idoms(self):
+        """immediate dominators (Cooper-Harvey-Kennedy)"""
         if self._dom is not None:
             return self._dom
-        nodes = sorted(self.live_blocks())
-        dom = {n: set(nodes) for n in nodes}
-        dom[0] = {0}
-        changed = True
         order = self._rpo()
+        num = {n: i for i, n in enumerate(order)}
+        idom = {0: 0}
+        changed = True
         while changed:
             changed = False
             for n in order:
                 if n == 0:
                     continue
-                ps = [p for p in self._pred[n] if p in dom]
-                if not ps:
-                    continue
-                new = set.intersection(*(dom[p] for p in ps)) | {n}
-                if new != dom[n]:
-                    dom[n] = new
+                new = None
+                for p in self._pred[n]:
+                    if p in idom and p in num:
+                        if new is None:
+                            new = p
+                        else:
+                            a, b2 = p, new
+                            while a != b2:
+                                while num[a] > num[b2]:
+                                    a = idom[a]
+                                while num[b2] > num[a]:
+                                    b2 = idom[b2]
+                            new = a
+                if new is not None and idom.get(n) != new:
+                    idom[n] = new
                     changed = True
-        self._dom = dom
-        return dom
+        self._dom = idom
+        return idom
+
+    def dominators(self):
+        """block -> set of its dominators (materialised lazily; avoid on very large bodies)"""
+        if getattr(self, "_domsets", None) is None:
+            idom = self.idoms()
+            sets = {}
+            for n in self._rpo():
+                if n == 0:
+                    sets[n] = {0}
+                elif n in idom:
+                    sets[n] = sets[idom[n]] | {n}
+            self._domsets = sets
+        return self._domsets
 
     def _rpo(self):
         seen = set()
@@ -325,7 +347,15 @@ class Body:
         return order
 
     def dominates(self, a, b):
-        return a in self.dominators().get(b, ())
+        idom = self.idoms()
+        if b not in idom:
+            return False
+        while True:
+            if a == b:
+                return True
+            if b == 0:
+                return False
+            b = idom[b]
 
     def exits(self):
         return [i for i in self.live_blocks() if self.blocks[i]["term"]["k"] == "return"]
@@ -373,11 +403,11 @@ class Body:
         """natural loops: header -> set(body blocks)"""
         if self._loops is not None:
             return self._loops
-        dom = self.dominators()
+        dom = self.idoms()
         loops = {}
         for u in dom:
             for h in self._succ[u]:
-                if h in dom.get(u, ()):
+                if h in dom and self.dominates(h, u):
                     body = loops.setdefault(h, {h})
                     st = [u]
                     while st:
